@@ -30,7 +30,7 @@ namespace core
 OnlineVariance::OnlineVariance(const double & averagePrecision, size_t windowSize)
 : OnlineAverage(averagePrecision, windowSize),
   windowSizeMinusOne_(windowSize - 1),
-  squaredMultiplier_(multiplier_ * multiplier_),
+  squaredMultiplier_(static_cast<long long int>(multiplier_) * multiplier_),
   squaredData_(),
   sumOfSquaredData_(0),
   variance_(std::numeric_limits<double>::quiet_NaN())
